@@ -21,6 +21,17 @@ def base_cases(rng, n):
         g = TplGen(rng, data, partials=['p1', 'p2'], ws=True, missing=0.02)
         t = g.template(rng.randint(2, 5)) + '\n  {{> p1}}\n{{ml}}'
         out.append((t, data, parts, rng.choice([2, 3, 6, 7])))
+    # fixed bases (whatever the seed): the failing write happens inside a partial that has no template name of its own — an
+    # inline partial, a partial-block body reached through @partial-block, the fallback body of a missing partial — also nested
+    # in a named one; the reason must still be the IO error itself
+    FD = {'v': 'V', 'ml': 'l1\nl2', 'l': [1, 2]}
+    for j, (t, parts) in enumerate([
+            ('{{#*inline "row"}}r{{v}};{{ml}}{{/inline}}a{{> row}}b\n  {{> row}}\nc', {}),
+            ('x{{#> lay}}B{{v}}|{{ml}}{{/lay}}y', {'lay': 'H{{> @partial-block}}T{{> @partial-block}}'}),
+            ('{{#> nolay}}fb{{v}}{{ml}}{{/nolay}}z', {}),
+            ('{{#each l}}{{#> lay}}{{#*inline "in"}}i{{this}}{{/inline}}{{> in}}{{v}}{{/lay}}{{/each}}', {'lay': '<{{> @partial-block}}>'}),
+            ('{{> named}}', {'named': '{{#*inline "q"}}Q{{v}}{{/inline}}n{{> q}}{{#> lay}}k{{v}}{{/lay}}', 'lay': '({{> @partial-block}})'})]):
+        out.append((t, FD, parts, [2, 3, 6, 7][j % 4]))
     return out
 
 def case_line(cid, t, data, parts, entry, failat):
